@@ -84,7 +84,7 @@ pub const STATEMENT_KINDS: [&str; 12] = [
 
 pub const ID_POOL: [&str; 14] = ["A", "B", "C", "Base", "Inst", "x", "y", "z", "val", "f1", "f2", "Rc", "i", "NAME"];
 pub const VAR_POOL: [&str; 3] = ["$a", "$b", "$src"];
-pub const STR_POOL: [&str; 6] = ["\"\"", "\"s\"", "\"a b\"", "\"e\\\"q\"", "\"t\\n\"", "\"héé\""];
+pub const STR_POOL: [&str; 10] = ["\"\"", "\"s\"", "\"a b\"", "\"e\\\"q\"", "\"t\\n\"", "\"héé\"", "\"C:\\\\\"", "\"\\\\\\\\\"", "\"q\\\\\\\"x\"", "\"// no /* comment [{ }]\""];
 pub const INT_POOL: [&str; 9] = ["0", "1", "7", "42", "-3", "+5", "0x1F", "0b101", "9223372036854775807"];
 pub const CODE_POOL: [&str; 3] = ["[{ c }]", "[{}]", "[{ return x[i]; }]"];
 
